@@ -6,7 +6,7 @@
 From Coq Require Import Permutation.
 From FrameModel Require Import Num.QcTac Geometry.Rect Cases.CmpC01
   Die.Boundaries Die.BoundariesFacts Die.Cells Die.Cover Die.CoverFacts Die.GridFacts Die.HananFacts
-  Die.DieModel Die.DieFacts Die.DieExample Die.DieInput Die.DieInputFacts.
+  Die.DieModel Die.DieFacts Die.DieExample Die.DieInput Die.DieInputFacts Die.NetHistory Die.NetHistoryFacts.
 From Coq Require Import Ascii String.
 Open Scope string_scope.
 Open Scope list_scope.
@@ -271,6 +271,87 @@ Theorem C01_agree_steps_sound : forall o steps chks,
   Forall2 (fun (b : bool) (chk : die_input -> list Rect -> bool) => chk (o_desc o) (call_fixed o b) = true) steps chks.
 Proof. exact agree_steps_sound. Qed.
 Print Assumptions C01_agree_steps_sound.
+
+(* ---- the attached Netlist object has a HISTORY before (and between) the constructions (Die/NetHistory.v):
+   assign_rectangles, is_fixed / is_hard, rectangle setters, recenter_rectangles, create_squares, reads, earlier dies.
+   A netlist is the list of its modules; the die is handed the rectangles of the modules that are fixed NOW. ---- *)
+
+(* whatever the history [pre] did, the construction after it is handed the fixed rectangles of the modules as [pre] left them *)
+Theorem C01_history_die_current : forall A (f : die_input -> list Rect -> A) d st pre st' outs b,
+  run_ops pre st = Some st' -> nsession f d st pre = Some outs ->
+  nsession f d st (pre ++ [ODie b]) = Some (outs ++ [f d (seen_fixed st' b)]).
+Proof. exact nsession_die_current. Qed.
+Print Assumptions C01_history_die_current.
+
+(* a history splits anywhere: the later part runs on the netlist the earlier part left *)
+Theorem C01_history_app : forall A (f : die_input -> list Rect -> A) d a b st,
+  nsession f d st (a ++ b) =
+  match nsession f d st a, run_ops a st with
+  | Some xs, Some st' => option_map (app xs) (nsession f d st' b)
+  | _, _ => None
+  end.
+Proof. exact nsession_app. Qed.
+Print Assumptions C01_history_app.
+
+(* a history of reads only (constructions, netlist.rectangles, num_rectangles, fixed_rectangles()) is the session on
+   the same objects: every construction sees the netlist as the user made it *)
+Theorem C01_history_reads_only : forall A (f : die_input -> list Rect -> A) d st ops,
+  forallb is_read ops = true ->
+  nsession f d st ops = Some (session f (mkObjs d (net_fixed st)) (dies_of ops)).
+Proof. exact nsession_reads_only. Qed.
+Print Assumptions C01_history_reads_only.
+
+(* assign_rectangles on a fixed module: the die is handed the NEW rectangles ... *)
+Theorem C01_assign_new_seen : forall n rs st st' m g,
+  apply_op (OAssign n rs) st = Some st' ->
+  In m st -> named n m = true -> m_fixed m = true -> In g rs ->
+  In (fixed_rect g) (net_fixed st').
+Proof. exact assign_new_seen. Qed.
+Print Assumptions C01_assign_new_seen.
+
+(* ... and none of the module's old ones: every fixed rectangle is a new one or belongs to another module *)
+Theorem C01_assign_old_forgotten : forall n rs st st' r,
+  apply_op (OAssign n rs) st = Some st' ->
+  In r (net_fixed st') -> In r (map fixed_rect rs) \/ In r (net_fixed (others n st)).
+Proof. exact assign_old_forgotten. Qed.
+Print Assumptions C01_assign_old_forgotten.
+
+(* module.is_fixed = False: nothing of that module is fixed any more; = True: its rectangles as they are now *)
+Theorem C01_release : forall n st st',
+  apply_op (OSetFixed n false) st = Some st' -> net_fixed st' = net_fixed (others n st).
+Proof. exact net_fixed_release. Qed.
+Print Assumptions C01_release.
+
+Theorem C01_fix : forall n st st',
+  apply_op (OSetFixed n true) st = Some st' ->
+  net_fixed st' = flat_map (fun m => if named n m || m_fixed m then map fixed_rect (m_rects m) else []) st.
+Proof. exact net_fixed_fix. Qed.
+Print Assumptions C01_fix.
+
+Theorem C01_sethard_irrelevant : forall n b st st',
+  apply_op (OSetHard n b) st = Some st' -> net_fixed st' = net_fixed st.
+Proof. exact net_fixed_sethard. Qed.
+Print Assumptions C01_sethard_irrelevant.
+
+(* the histories are not vacuous: a fixed module relocated, another released, a read and a bare die in between *)
+Theorem C01_history_example :
+  nsession (fun _ fx => fx) (InStr "10x9") ex_net
+    [ODie true; OAssign "M1" [mkGeom (qc 7 1) (qc 2 1) (qc 2 1) (qc 2 1)]; ODie true; OSetFixed "M2" false; ORead; ODie true; ODie false]
+  = Some [ [fixed_rect (mkGeom (qc 2 1) (qc 7 1) (qc 2 1) (qc 2 1)); fixed_rect (mkGeom (qc 8 1) (qc 11 2) (qc 2 1) (qc 1 1))];
+           [fixed_rect (mkGeom (qc 7 1) (qc 2 1) (qc 2 1) (qc 2 1)); fixed_rect (mkGeom (qc 8 1) (qc 11 2) (qc 2 1) (qc 1 1))];
+           [fixed_rect (mkGeom (qc 7 1) (qc 2 1) (qc 2 1) (qc 2 1))];
+           [] ].
+Proof. exact history_example. Qed.
+Print Assumptions C01_history_example.
+
+(* what the correspondence evaluates on such a history: the model accepts the history and every observed construction
+   agrees with the model on what it was handed *)
+Theorem C01_agree_nsteps_sound : forall d st ops chks,
+  agree_nsteps (nsession (fun i fx => (i, fx)) d st ops) chks = true ->
+  exists seen, nsession (fun i fx => (i, fx)) d st ops = Some seen /\
+    Forall2 (fun (p : die_input * list Rect) (chk : die_input -> list Rect -> bool) => chk (fst p) (snd p) = true) seen chks.
+Proof. exact agree_nsteps_sound. Qed.
+Print Assumptions C01_agree_nsteps_sound.
 
 (* the three readings of a str, in the order the code tries them *)
 Theorem C01_read_order : forall file_of yaml_load s,
